@@ -2,7 +2,7 @@
 # Engine E2: thread programs over photon::mutex / seq_mutex / recursive_mutex on the real scheduler
 # (single vCPU, virtual clock) vs the cooperative run of the FINE-GRAINED Coq model
 # (coq/C01/C01_Model.v `tstep`, driven by coq/C01/C01_Coop.v through Sched/Prog.v).
-import sys
+import sys, stat, itertools
 from vlib import *
 sys.path.insert(0, os.path.join(VERIF, 'harness', 'E2'))
 import e2lib
@@ -134,6 +134,87 @@ def analyse(case, out):
     return None
 
 
+# ------------------------------------------------------------------ E3: spinlock / ticket / qspinlock
+B36 = '0123456789abcdefghijklmnopqrstuvwxyz'
+
+
+def gen_spin(tier, rng):
+    cases = []
+    # exhaustive: 2 participants x 1-2 lock/unlock rounds, every schedule word of length L (tail = round-robin)
+    for kind in ('tas', 'tkl', 'qsl'):
+        for scripts, L in ((['LU', 'LU'], 8 if tier == 'quick' else 12), (['LULU', 'LULU'], 6 if tier == 'quick' else 11)):
+            for w in itertools.product('01', repeat=L):
+                cases.append('S %s 400 | %s | %s | %s' % (kind, scripts[0], scripts[1], ''.join(w)))
+        if kind != 'tkl':
+            for scripts in (['TU', 'LU'], ['TUTU', 'LUTU'], ['LUTU', 'TLU']):
+                for w in itertools.product('01', repeat=7 if tier == 'quick' else 11):
+                    cases.append('S %s 400 | %s | %s | %s' % (kind, scripts[0], scripts[1], ''.join(w)))
+    # random bursty schedules for 3-4 participants, with a victim that is stalled at a chosen step
+    nrand = 400 if tier == 'quick' else 6000
+    for _ in range(nrand):
+        kind = rng.choice(['tas', 'tkl', 'qsl', 'qsl'])
+        n = rng.choice([3, 3, 4])
+        ops = 'LU' if kind == 'tkl' else 'LUT'
+        scripts = []
+        for p in range(n):
+            r = rng.random()
+            if r < .6: sc = 'LU' * rng.randint(1, 3)
+            else: sc = ''.join(rng.choice(ops) for _ in range(rng.randint(2, 6)))
+            scripts.append(sc + 'U')        # always release at the end: a livelock is then a real failure
+        sched = []
+        victim = rng.randrange(n)
+        stall_at = rng.randint(1, 6)
+        vsteps = 0
+        for _ in range(rng.randint(10, 60)):
+            p = rng.randrange(n)
+            if p == victim:
+                if vsteps >= stall_at and rng.random() < .9: continue
+                vsteps += 1
+            sched += [p] * (1 if rng.random() < .6 else rng.randint(2, 5))
+        cases.append('S %s 600 | %s | %s' % (kind, ' | '.join(scripts), ''.join(B36[p] for p in sched[:80])))
+    return cases
+
+
+def spin_oracle(case, out):
+    """exclusion (and ticket FIFO) evaluated on the IMPLEMENTATION's step log alone"""
+    if out.startswith('CRASH') or 'E3ERROR' in out or out.startswith('BADCASE'):
+        return 'E3 harness failed: ' + out[:300]
+    m = re.match(r'^steps=(\d+) livelock=([01]) digest=\S+ log=(.*)$', out)
+    if not m:
+        return 'unparsable: ' + out[:200]
+    kind = case.split()[1]
+    if m.group(2) == '1':
+        return 'livelock: the lock never lets the remaining participants finish (bound reached): ' + out[:200]
+    inside = set()
+    ticket = {}
+    order = []
+    for ent in m.group(3).split():
+        f = ent.split('.')
+        p, k = int(f[0]), f[1]
+        enter = leave = False
+        if kind == 'tas':
+            enter = k == 'xg' and f[-1] == '0'
+            leave = k == 'st'
+        elif kind == 'tkl':
+            if k == 'fa': ticket[p] = int(f[-1])
+            enter = k == 'ld' and p not in inside and p in ticket and int(f[-1]) == ticket[p]
+            if k == 'st': leave = True; ticket.pop(p, None)
+        else:
+            enter = (k == 'xg' and f[-1] == 'null') or (k == 'cas' and f[3] == 'null' and f[-1] == '1') or \
+                    (k == 'ld' and f[2].startswith('hgot') and f[-1] == '1')
+            leave = k == 'ld' and f[2].startswith('hnext') and p in inside
+        if enter:
+            if inside:
+                return 'participant %d enters (%s) while %s inside' % (p, ent, sorted(inside))
+            inside.add(p)
+            if kind == 'tkl': order.append(ticket[p])
+        elif leave:
+            inside.discard(p)
+    if kind == 'tkl' and order != sorted(order):
+        return 'ticket lock admitted out of ticket order: %s' % order
+    return None
+
+
 class Check(DiffCheck):
     id = 'C01'
     needs_libphoton = True
@@ -153,10 +234,39 @@ class Check(DiffCheck):
     case_timeout = 7000
 
     def __init__(self):
-        self.runner_ml = e2lib.make_runner(self.id, ['ocaml/E2_lib.ml', 'ocaml/C01_run.ml'])
+        self.runner_ml = e2lib.make_runner(self.id, ['ocaml/E2_lib.ml', 'ocaml/C01_spin_run.ml', 'ocaml/C01_run.ml'])
 
     def build_impl(self):
-        return e2lib.build_impl(self.id, ['harness/C01/ops_mutex.cpp'])
+        e2 = e2lib.build_impl(self.id, ['harness/C01/ops_mutex.cpp'], out=os.path.join(BUILD, 'bin', 'C01_e2'))
+        sp, log = cxx_build(self.id, ['harness/C01/spin_e3.cpp'], '-I%s' % REPO, False, True, os.path.join(BUILD, 'bin', 'C01_spin'))
+        if not sp:
+            raise RuntimeError('spin_e3: ' + log[-3000:])
+        # dispatcher: P lines -> E2 harness, S lines -> E3 spinlock harness; one output line per input line, in order
+        wrap = os.path.join(BUILD, 'bin', 'C01_impl')
+        with open(wrap, 'w') as f:
+            f.write('''#!/usr/bin/env python3
+import sys, subprocess
+lines = [l.rstrip('\\n') for l in open(sys.argv[1]) if l.strip() and not l.startswith('#')]
+i = 0
+while i < len(lines):
+    tag = lines[i][0]
+    j = i
+    while j < len(lines) and lines[j][0] == tag: j += 1
+    exe = %r if tag == 'P' else %r
+    fn = sys.argv[1] + '.%%d.part' %% i
+    open(fn, 'w').write('\\n'.join(lines[i:j]) + '\\n')
+    p = subprocess.run([exe, fn], stdout=subprocess.PIPE, stderr=subprocess.PIPE, universal_newlines=True, errors='replace')
+    out = p.stdout.split('\\n')
+    if out and out[-1] == '': out = out[:-1]
+    for k in range(j - i):
+        if k < len(out): print(out[k])
+        elif k == len(out): print('CRASH(%%s): %%s' %% (p.returncode, (p.stderr.strip().splitlines() or [''])[-1][:200]))
+        else: print('CRASH(skipped)')
+    sys.stdout.flush()
+    i = j
+''' % (e2, sp))
+        os.chmod(wrap, os.stat(wrap).st_mode | stat.S_IXUSR | stat.S_IXGRP | stat.S_IXOTH)
+        return wrap
 
     def gen_cases(self, tier, rng):
         cases = []
@@ -166,7 +276,7 @@ class Check(DiffCheck):
         n = int(os.environ.get('C01_N', '0')) or (200 if tier == 'quick' else 6000)
         for _ in range(n):
             cases.append(gen_prog(rng))
-        return cases
+        return cases + gen_spin(tier, rng)
 
     def impl_env(self):
         e = DiffCheck.impl_env(self)
@@ -174,6 +284,8 @@ class Check(DiffCheck):
         return e
 
     def nontrivial(self, case):
+        if case[0] == 'S':
+            return sum(1 for sc in case.split('|')[1:-1] if 'L' in sc or 'T' in sc) >= 2
         decls, threads = e2lib.parse_case(case)
         users = {}
         for t, ops in enumerate(threads):
@@ -183,13 +295,19 @@ class Check(DiffCheck):
         return any(len(v) >= 2 for v in users.values())
 
     def oracle(self, case, impl_out):
+        if case[0] == 'S':
+            return spin_oracle(case, impl_out)
         return analyse(case, impl_out)
 
     def category(self, case):
+        if case[0] == 'S':
+            return 'E3/%s/%dp' % (case.split()[1], len(case.split('|')) - 2)
         decls, threads = e2lib.parse_case(case)
         return '%dthr/%s' % (len(threads), '+'.join(sorted(set(d[0] for d in decls))))
 
     def neighbours(self, case, rng):
+        if case[0] == 'S':
+            return gen_spin('quick', rng)[-300:]
         return [gen_prog(rng) for _ in range(300)]
 
 
